@@ -346,6 +346,47 @@ def setup(vc):
 
 
 def replay(vc, path):
+    """Re-execute a replay artefact against the current /repo tree.
+    hmc artefacts carry the operation history: it is executed step by step by `hmc replay` (no explorer).
+    Other engines are deterministic enumerations: the recorded worker is re-run and the same case looked up."""
+    import subprocess
     d = json.load(open(path))
     print(json.dumps(d, indent=1))
+    rp = d.get("replay") or {}
+    if isinstance(rp, dict) and rp.get("engine") == "hmc" and rp.get("history"):
+        prof = rp.get("profile", "rel")
+        exe = vc.build("hmc", "std", prof)
+        hist = json.dumps(rp["history"], separators=(",", ":"))
+        cmd = [exe, "replay", hist, "--parity", rp.get("parity", "even")]
+        if rp.get("drop_order"):
+            cmd += ["--drop-order", ",".join(str(x) for x in rp["drop_order"])]
+        p = subprocess.run(cmd, cwd=vc.VERIF, env=vc.base_env())
+        print("replay exit status %d (%s)" % (p.returncode, "violation reproduced" if p.returncode != 0 else "no violation on this tree"))
+        sys.exit(1 if p.returncode != 0 else 0)
+    w = d.get("worker") or ""
+    m = re.match(r"(bufmc|hmc) (.*)", w)
+    if m:
+        feat = "serde" if " c15 " in " " + m.group(2) + " " else "std"
+        seen = False
+        for prof in ("rel", "dbg"):
+            exe = vc.build(m.group(1), feat, prof)
+            p = subprocess.run([exe] + m.group(2).split(), cwd=vc.VERIF, env=vc.base_env(), stdout=subprocess.PIPE, stderr=subprocess.PIPE, text=True, errors="replace")
+            for line in p.stdout.splitlines():
+                if line.startswith("RESULT "):
+                    try:
+                        r = json.loads(line[7:])
+                    except Exception:
+                        continue
+                    for v in r.get("violations", []):
+                        if v["property"] == d["property"] and v["case"] == d["case"]:
+                            seen = True
+                            print("reproduced [%s]: %s" % (prof, v["msg"][:400]))
+            if p.returncode == 70 or "CRASH signal=" in p.stderr:
+                seen = True
+                print("reproduced [%s]: engine crashed again: %s" % (prof, [l for l in p.stderr.splitlines() if l.startswith("CRASH")][:1]))
+            if seen:
+                break
+        print("violation reproduced" if seen else "no violation on this tree")
+        sys.exit(1 if seen else 0)
+    print("(loom artefacts: re-run `vcheck %s quick`; the program name in the message selects the loom::model)" % d.get("property"))
     sys.exit(0)
